@@ -86,6 +86,8 @@ def m_len(en, x):
         return x.length()
     if isinstance(x, ObjV) and x.model is not None:
         return x.model.length(en, x)
+    if isinstance(x, (tuple, list, dict)):
+        return len(x)
     if is_symbolic(x):
         raise Unsupported(f"len of {type(x).__name__}")
     try:
@@ -195,40 +197,47 @@ def str_to_int(en, s):
     return U_pyint(s)
 
 
+U_decimal = z3.Function("U_decimal", z3.IntSort(), z3.BoolSort())      # non-ASCII Unicode decimal digit
+U_digitval = z3.Function("U_digitval", z3.IntSort(), z3.IntSort())
+
+
 def hex_digit_val(c):
-    """value of one hex digit character (z3 string of length 1), -1 if not ASCII hex"""
+    """value int(c, 16) gives one character c (z3 string of length 1); -1 if rejected.
+    ASCII: exact.  Non-ASCII: Unicode decimal digits are accepted by int() (abstract predicate)."""
     code = z3.StrToCode(c)
     return z3.If(
         z3.And(code >= 48, code <= 57), code - 48,
         z3.If(z3.And(code >= 65, code <= 70), code - 55,
-              z3.If(z3.And(code >= 97, code <= 102), code - 87, z3.IntVal(-1))))
+              z3.If(z3.And(code >= 97, code <= 102), code - 87,
+                    z3.If(z3.And(code > 127, U_decimal(code)), U_digitval(code), z3.IntVal(-1)))))
 
 
 def hex_to_int(en, s):
-    """int(s, 16) for 2-character strings (colour channels); exact on ASCII."""
-    n = simp_int(z3.Length(s))
+    """int(s, 16) for strings of 1 or 2 alphanumeric characters (colour channels)."""
+    from .engine import mk_substr
     ln = None
-    if L.is_conc_int(n):
-        ln = n
-    else:
-        for k in (1, 2):
-            if en.decide(z3.Length(s) == k):
-                ln = k
-                break
-    if ln is None or ln not in (1, 2):
-        raise Unsupported("int(s,16) for length other than 1..2")
-    vals = [hex_digit_val(z3.SubString(s, i, 1)) for i in range(ln)]
+    for k in (2, 1):
+        if en.decide(z3.Length(s) == k):
+            ln = k
+            break
+    if ln is None:
+        if en.decide(z3.Length(s) == 0):
+            raise PyRaise(ValueError, "invalid literal for int() with base 16: ''")
+        raise Unsupported("int(s,16) for length > 2")
+    chars = [mk_substr(s, i, 1) for i in range(ln)]
+    vals = [hex_digit_val(c) for c in chars]
+    en.pc.extend([z3.Implies(z3.And(z3.StrToCode(c) > 127, U_decimal(z3.StrToCode(c))),
+                             z3.And(U_digitval(z3.StrToCode(c)) >= 0, U_digitval(z3.StrToCode(c)) <= 9,
+                                    U_isdigit(z3.StrToCode(c)))) for c in chars])
     ok = z3.And(*[v >= 0 for v in vals])
     if en.decide(ok):
         r = z3.IntVal(0)
         for v in vals:
             r = r * 16 + v
         return simp_int(r)
-    ascii_only = z3.InRe(s, z3.Star(z3.Range(chr(0), chr(127))))
-    # ASCII forms int() accepts besides plain hex digits in <=2 chars: '+f', '-f', ' f', 'f ' ...
-    simple = z3.And(ascii_only, z3.InRe(s, z3.Star(z3.Union(
-        z3.Range("g", "z"), z3.Range("G", "Z"), z3.Range("0", "9"), z3.Range("a", "f"), z3.Range("A", "F")))))
-    if en.decide(simple):
+    # not plain digits: sign / white space / underscore forms exist only with non-alphanumerics
+    alnum = z3.And(*[cls_alnum(z3.StrToCode(c)) for c in chars])
+    if en.decide(alnum):
         raise PyRaise(ValueError, "invalid literal for int() with base 16")
     if en.choose(2) == 0:
         raise PyRaise(ValueError, "invalid literal for int() with base 16")
@@ -500,13 +509,25 @@ def all_chars(s, cls):
         return z3.And(*[all_chars(ch, cls) for ch in s.children()])
     if z3.is_string_value(s):
         v = s.as_string()
-        return z3.And(*[cls(z3.IntVal(ord(ch))) for ch in v]) if v else z3.BoolVal(True)
+        return z3.simplify(z3.And(*[cls(z3.IntVal(ord(ch))) for ch in v])) if v else z3.BoolVal(True)
+    if z3.is_app_of(s, z3.Z3_OP_ITE):
+        return z3.If(s.arg(0), all_chars(s.arg(1), cls), all_chars(s.arg(2), cls))
+    if z3.is_app_of(s, z3.Z3_OP_SEQ_EXTRACT):
+        s0, a, la = s.arg(0), z3.simplify(s.arg(1)), z3.simplify(s.arg(2))
+        if z3.is_int_value(a) and a.as_long() >= 0 and la.eq(z3.simplify(z3.Length(s0))):
+            i = z3.FreshInt("ci")
+            ch = char_at(s0, i)
+            from .spec import pat_ok
+            kw = {"patterns": [ch]} if pat_ok(ch) else {}
+            return z3.ForAll([i], z3.Implies(z3.And(a <= i, i < z3.Length(s0)), cls(z3.StrToCode(ch))), **kw)
     if z3.is_app_of(s, z3.Z3_OP_STR_FROM_CODE):
         x = s.arg(0)
         return z3.Implies(z3.Length(s) == 1, cls(x))
     i = z3.FreshInt("ci")
     ch = char_at(s, i)
-    return z3.ForAll([i], z3.Implies(z3.And(0 <= i, i < z3.Length(s)), cls(z3.StrToCode(ch))), patterns=[ch])
+    from .spec import pat_ok
+    kw = {"patterns": [ch]} if pat_ok(ch) else {}
+    return z3.ForAll([i], z3.Implies(z3.And(0 <= i, i < z3.Length(s)), cls(z3.StrToCode(ch))), **kw)
 
 
 def cls_alpha(c):
@@ -556,6 +577,12 @@ def s_isalnum(en, s):
     return _charclass(en, s, cls_alnum, "isalnum")
 
 
+def s_isascii(en, s):
+    if _all_conc(s):
+        return s.isascii()
+    return all_chars(lift(s), lambda c: c <= 127)
+
+
 def s_isspace(en, s):
     return _charclass(en, s, cls_space, "isspace")
 
@@ -569,6 +596,8 @@ def s_lower(en, s):
     if _all_conc(s):
         return s.lower()
     s = lift(s)
+    if z3.is_app_of(s, z3.Z3_OP_ITE):
+        return z3.If(s.arg(0), lift(s_lower(en, _unlift(s.arg(1)))), lift(s_lower(en, _unlift(s.arg(2)))))
     r = U_lower(s)
     # facts (exact for ASCII characters): per-character mapping; length preserved when all ASCII
     i = z3.FreshInt("ci")
@@ -579,8 +608,19 @@ def s_lower(en, s):
     en.pc.append(z3.Implies(ascii_only, z3.ForAll(
         [i], z3.Implies(z3.And(0 <= i, i < z3.Length(s)),
                         ri == z3.If(z3.And(ci >= 65, ci <= 90), ci + 32, ci)),
-        patterns=[char_at(r, i)])))
+        **({"patterns": [char_at(r, i)]} if _pat_ok(char_at(r, i)) else {}))))
     return r
+
+
+def _pat_ok(t):
+    from .spec import pat_ok
+    return pat_ok(t)
+
+
+def _unlift(t):
+    if z3.is_string_value(t):
+        return t.as_string()
+    return t
 
 
 def s_upper(en, s):
@@ -686,7 +726,7 @@ def s_encode(en, s, *a):
 
 
 _STR = {
-    "isalpha": s_isalpha, "isdigit": s_isdigit, "isalnum": s_isalnum, "isspace": s_isspace,
+    "isascii": s_isascii, "isalpha": s_isalpha, "isdigit": s_isdigit, "isalnum": s_isalnum, "isspace": s_isspace,
     "lower": s_lower, "upper": s_upper, "strip": s_strip, "startswith": s_startswith,
     "endswith": s_endswith, "split": s_split, "join": s_join, "replace": s_replace, "find": s_find,
     "format": s_format, "encode": s_encode,
